@@ -104,6 +104,21 @@ def gen_cases(rng, tier):
         c["meta"]["poke"] = ["zero_data_nonfinite_derivatives", repr(tiny)]
         c["meta"]["cfg"] = cfg
         cases.append(c)
+    # the same with derivatives that return an ERROR (builder-made model whose derivative closures have a wrong output length) at
+    # ordinary parameters: the statistics are the first to evaluate them
+    for j in range(8 if tier == "quick" else 60):
+        fam = ["exp2c", "exp1l", "exp1"][j % 3]
+        M = len(FAMILIES[fam][0])
+        c = gen_problem(rng, family=fam, N=M + FAMILIES[fam][1] + 2 + j % 3, ctor="new", quant=8, scalar=("f32" if j % 4 == 3 else "f64"),
+                        builder_made=True, weights=["none", "pos"][j % 2])
+        c["model"]["deriv_len_delta"] = [1, -1, 3, 2][j % 4]
+        Y = [o for o in c["build"] if o[0] == "obs"][-1]
+        Y[2] = [[hx(0.0, c["scalar"])] * c["meta"]["N"] for _ in Y[2]]
+        cfg = {}
+        c["ops"] = [["observe"], ["jac"], ["fit_stats", cfg, [hx(0.9, c["scalar"])]], ["observe"], ["jac"]]
+        c["meta"]["poke"] = ["zero_data_failing_derivatives", c["model"]["deriv_len_delta"]]
+        c["meta"]["cfg"] = cfg
+        cases.append(c)
     return cases
 
 
